@@ -3,6 +3,7 @@ C16: the cutter never panics and never runs out of fuel (part 7): `cut`, `cutSin
 `zlibcut.Cut`.
 -/
 import WuffsVerif.Proof.Flate.Total4
+import WuffsVerif.Proof.Flate.Bounds3
 
 namespace WuffsVerif.Flate.Cut
 open WuffsVerif.Gen.C16
@@ -62,4 +63,182 @@ theorem NoPanic.of_exists {α : Type} {r : Except Err α} (h : ∃ a, r = .ok a)
 def PrevWF (size : Nat) (prev : Option (Nat × Nat)) : Prop :=
   ∀ i n, prev = some (i, n) → 1 ≤ i ∧ i ≤ size
 
+theorem unread_wf {b : Bitstream} (h : b.WF) : b.unread.WF := by
+  have h1 := h.nBits_le; have h2 := h.index_le
+  exact ⟨by simp only [Bitstream.unread]; omega, by simp only [Bitstream.unread]; omega⟩
+
+theorem unread_patch_wf (bytes b' : Bytes) (bits : UInt64) (i n : Nat) (hn : n < 8) (h1 : 1 ≤ i)
+    (h2 : i ≤ b'.size) :
+    ({ (({ bytes := bytes, index := i, bits := bits, nBits := n + 1 } : Bitstream).unread) with bytes := b' } : Bitstream).WF := by
+  constructor
+  · simp only [Bitstream.unread]; omega
+  · simp only [Bitstream.unread]; omega
+
+/-- **The block loop of `cut` never panics and never runs out of fuel.** -/
+theorem cutLoop_total : ∀ (fuel : Nat) (c : Cutter) (prev : Option (Nat × Nat)),
+    c.OK → 2 ≤ c.maxEncodedLen → 8 * c.bits.bytes.size + 2 ≤ fuel + c.bits.pos →
+    PrevWF c.bits.bytes.size prev → NoPanic (Cutter.cutLoop fuel c prev) := by
+  intro fuel
+  induction fuel with
+  | zero =>
+    intro c prev hc _ hf _
+    have := Inv.pos_le hc.inv
+    omega
+  | succ fuel ih =>
+    intro c prev hc h2m hf hprev e h
+    simp only [Cutter.cutLoop] at h
+    -- the final-block bit
+    obtain ⟨y1, t1⟩ := take_ok' c.bits hc.inv 1 (by omega)
+    generalize c.bits.take 1 = r1 at h y1 t1
+    obtain ⟨fb, bits1⟩ := r1
+    simp only [] at h y1 t1
+    split at h
+    · simp at h; subst h; simp
+    rename_i hfb
+    rcases t1 with ⟨t1a, _⟩ | ⟨_, i1, p1⟩
+    · exfalso; rw [t1a] at hfb; exact hfb (by decide)
+    obtain ⟨iu, pu⟩ := Inv.unread i1
+    have hfbi1 : 1 ≤ bits1.unread.index := by
+      have := iu.nBits_le
+      simp only [Bitstream.pos] at pu p1
+      omega
+    have hfbi2 : bits1.unread.index ≤ c.bits.bytes.size := by rw [← y1]; exact iu.index_le
+    have hfbn := unread_nBits_lt bits1
+    -- the block type
+    obtain ⟨y2, t2⟩ := take_ok' bits1 i1 2 (by omega)
+    generalize bits1.take 2 = r2 at h y2 t2
+    obtain ⟨bt, bits2⟩ := r2
+    simp only [] at h y2 t2
+    split at h
+    · simp at h; subst h; simp
+    rename_i hbt
+    rcases t2 with ⟨t2a, _⟩ | ⟨_, i2, p2⟩
+    · exfalso; rw [t2a] at hbt; exact hbt (by decide)
+    split at h
+    · simp at h; subst h; simp
+    have hc2 : ({ c with bits := bits2 } : Cutter).OK :=
+      ⟨i2, by show c.maxEncodedLen ≤ bits2.bytes.size; rw [y2, y1]; exact hc.max, hc.l, hc.d⟩
+    generalize hblk : (if bt = 0 then Cutter.doStored { c with bits := bits2 }
+        else if bt = 1 then Cutter.doStaticHuffman { c with bits := bits2 } prev.isNone
+        else Cutter.doDynamicHuffman { c with bits := bits2 } prev.isNone) = blk at h
+    have hbtot : BlockTotal { c with bits := bits2 } blk := by
+      rw [← hblk]
+      split
+      · exact doStored_total _ hc2
+      · split
+        · exact doStaticHuffman_total _ hc2 _
+        · exact doDynamicHuffman_total _ hc2 _
+    obtain ⟨c3, err⟩ := blk
+    obtain ⟨k1, k2, k3, k4, k5, k6⟩ := hbtot
+    have k1 : c3.maxEncodedLen = c.maxEncodedLen := k1
+    have k2 : c3.bits.bytes.size = c.bits.bytes.size := by
+      have : c3.bits.bytes.size = bits2.bytes.size := k2
+      rw [this, y2, y1]
+    have k3 : err ≠ some .panic := k3
+    have k4 : err ≠ some .fuel := k4
+    simp only [] at h
+    have hm3 : c3.maxEncodedLen ≤ c3.bits.bytes.size := by have := hc.max; omega
+    have h2m3 : 2 ≤ c3.maxEncodedLen := by omega
+    split at h
+    · -- nil
+      obtain ⟨hc3, hp3⟩ := k5 rfl
+      have hp3 : bits2.pos ≤ c3.bits.pos := hp3
+      have hc3 : c3.OK := hc3
+      obtain ⟨iu3, pu3⟩ := Inv.unread hc3.inv
+      split at h
+      · have hc3' : ({ c3 with bits := c3.bits.unread } : Cutter).OK := ⟨iu3, hc3.max, hc3.l, hc3.d⟩
+        have hfuel : 8 * ({ c3 with bits := c3.bits.unread } : Cutter).bits.bytes.size + 2 ≤
+            fuel + ({ c3 with bits := c3.bits.unread } : Cutter).bits.pos := by
+          show 8 * c3.bits.bytes.size + 2 ≤ fuel + c3.bits.unread.pos
+          omega
+        have hprev' : PrevWF ({ c3 with bits := c3.bits.unread } : Cutter).bits.bytes.size
+            (some (bits1.unread.index, bits1.unread.nBits)) := by
+          intro i n hin
+          simp only [Option.some.injEq, Prod.mk.injEq] at hin
+          obtain ⟨rfl, rfl⟩ := hin
+          show 1 ≤ bits1.unread.index ∧ bits1.unread.index ≤ c3.bits.bytes.size
+          exact ⟨hfbi1, by omega⟩
+        exact ih _ _ hc3' h2m3 hfuel hprev' e h
+      · exact NoPanic.of_exists (finish_total _ ⟨iu3.nBits_le, iu3.index_le⟩) e h
+    · -- errInternalNoProgress
+      split at h
+      · have := cutSingleBlock_total _ _ h2m3 hm3 e h
+        subst this; simp
+      · rename_i pi pn
+        obtain ⟨q1, q2⟩ := hprev pi pn rfl
+        obtain ⟨b', eb⟩ := patchFinalBit_total c3.bits.bytes pi pn q1 (by omega)
+        have hps := patchFinalBit_size _ _ _ _ eb
+        simp only [unread_bytes] at h
+        rw [eb] at h
+        simp only [] at h
+        exact NoPanic.of_exists (finish_total _
+          (unread_patch_wf _ b' _ bits1.unread.index bits1.unread.nBits hfbn hfbi1 (by omega))) e h
+    · -- errInternalSomeProgress
+      have hwf := unread_wf (k6 rfl)
+      obtain ⟨b', eb⟩ := patchFinalBit_total c3.bits.bytes bits1.unread.index bits1.unread.nBits hfbi1
+        (by omega)
+      have hps := patchFinalBit_size _ _ _ _ eb
+      simp only [unread_bytes] at h
+      rw [eb] at h
+      simp only [] at h
+      refine NoPanic.of_exists (finish_total _ ⟨hwf.nBits_le, ?_⟩) e h
+      show c3.bits.unread.index ≤ b'.size
+      rw [hps]; exact hwf.index_le
+    · -- errInternalReplaceWithSingleBlock
+      have := cutSingleBlock_total _ _ h2m3 hm3 e h
+      subst this; simp
+    · -- any other error of the block
+      rename_i e' _ _ _
+      simp at h
+      subst h
+      exact ⟨fun h => k3 (by rw [h]), fun h => k4 (by rw [h])⟩
+
+/-- **`flatecut.Cut` never panics (no out-of-range index anywhere in the model) and the model's loops
+never run out of fuel, for ARBITRARY bytes and any limit.** -/
+theorem Cut_total (w : Bool) (encoded : Bytes) (limit : Int) : NoPanic (Cut w encoded limit) := by
+  intro e h
+  rw [Cut_eq] at h
+  split at h
+  · simp at h; subst h; simp
+  · rename_i hlim
+    simp only [smallestValidMaxEncodedLen] at hlim
+    have hcl := clampLimit_le limit encoded.size (by omega)
+    generalize clampLimit limit encoded.size = m at h hcl
+    split at h
+    · simp at h; subst h; simp
+    · rename_i hm2
+      simp only [smallestValidMaxEncodedLen] at hm2
+      split at h
+      · rename_i e' hc
+        simp at h; subst h
+        exact cutLoop_total _ _ none
+          ⟨inv_fresh encoded 0 (Nat.zero_le _), hcl.1, Huffman.zero_shape, Huffman.zero_shape⟩
+          (by show 2 ≤ m; omega) (by simp only [Bitstream.pos]; omega) (by intro i n hin; simp at hin) _ hc
+      · rename_i enc eLen dLen hc
+        split at h
+        · cases hst : (Spec.inflateRaw #[] (enc.extract 0 eLen) none).status <;> simp [hst] at h
+          all_goals first
+            | (subst h; simp; done)
+            | (split at h <;> simp at h; subst h; simp)
+        · simp at h
+
 end WuffsVerif.Flate.Cut
+
+namespace WuffsVerif.Flate.ZlibCut
+open WuffsVerif.Flate.Cut
+
+/-- **`zlibcut.Cut` never panics either.** -/
+theorem Cut_total (encoded : Bytes) (limit : Int) : NoPanic (ZlibCut.Cut encoded limit) := by
+  intro e h
+  simp only [ZlibCut.Cut] at h
+  repeat' split at h
+  all_goals first
+    | (simp at h; subst h; simp; done)
+    | (simp at h; done)
+    | (rename_i e' hc; simp at h; subst h; exact Cut.Cut_total _ _ _ _ hc)
+    | (rename_i r hc hov
+       have hb := Cut.Cut_lengths_in_bounds _ _ _ _ hc
+       simp [Array.size_extract] at hb hov
+       omega)
+
+end WuffsVerif.Flate.ZlibCut
